@@ -20,7 +20,7 @@ type chr struct { //nolint:unused
 	width int
 }
 
-var matchIdentifier = regexp.MustCompile(`^[$_\p{L}][$_\p{L}\d}]*$`)
+var matchIdentifier = regexp.MustCompile(`^[$_\p{L}][$_\p{L}\p{Nd}]*$`)
 
 func isDecimalDigit(chr rune) bool {
 	return '0' <= chr && chr <= '9'
